@@ -2097,6 +2097,9 @@ class Executor(object):
                 for s3, (k3, v3) in self.exec_block(s0, stmt.body):
                     if k3 in (NEXT, CONTINUE):
                         check_inv(s3, k + 1, 'preserve')
+                        for bt in linv.get('body_trace', []):
+                            for oid_, goal_, text_ in bt(self, s3, k):
+                                self.oblige(s3, goal_, '%s.body.%s' % (tag, oid_), 'trace', where, {'clause': text_})
                         if dec is not None:
                             sp = s3.fork()
                             sp.spec = True
